@@ -128,6 +128,8 @@ finding('D50', 'C05', 'toolbox-ids', 'overloads of a free function declared in t
         'wrap_namespace writes one <name>.m per namespace node', {'text': 'namespace a { int f(int x); }\nnamespace a { int f(int x, int y); }\n'})
 # ---- C14
 # ---- C04
+finding('D51', 'C04', 'import-module', 'a print method with a required parameter gives __repr__ the same required parameter; a default value of that class type (whose repr pybind11 evaluates at registration) then makes the module fail at import',
+        '_wrap_print copies print\'s signature into __repr__', {'interface': 'class P { P(); void print(string s) const; }; class Q { Q(); void f(P p = P()); };'})
 finding('D40', 'C04', 'import-module', 'a default value of the class\'s own enum type makes the module fail at import (enum registered after the class)',
         'class-scoped enums are emitted after the class statement', {'interface': 'class A { enum K { a, b }; A(A::K k = A::K::a); };'})
 
